@@ -123,7 +123,7 @@ func (s *SuffrageStateBuilder) buildBatch(
 
 	newprev := localstate
 	var previous base.State
-	var proofs []base.SuffrageProof
+	var proofs, all []base.SuffrageProof
 	var provelock sync.Mutex
 
 	if err := util.BatchWork(
@@ -132,6 +132,7 @@ func (s *SuffrageStateBuilder) buildBatch(
 		s.batchlimit,
 		func(_ context.Context, last uint64) error {
 			previous = newprev
+			all = append(all, proofs...) // NOTE keeps the proofs of the finished batch
 
 			switch r := (last + 1) % uint64(s.batchlimit); {
 			case r == 0:
@@ -175,7 +176,7 @@ func (s *SuffrageStateBuilder) buildBatch(
 		return nil, e.Wrap(err)
 	}
 
-	return proofs, nil
+	return append(all, proofs...), nil
 }
 
 func (*SuffrageStateBuilder) prove(
